@@ -175,6 +175,7 @@ type peekT struct {
 	closed, est                        bool
 	queued, fragSize, fragCount, cache int
 	cur                                uint16 // next handshake message_seq the reassembly expects
+	windows, remoteEpoch               int    // anti-replay windows allocated (one per epoch slot) / highest epoch readable
 }
 
 func lightPeek(e *world.Endpoint) peekT { return peekWith(e, true) }
@@ -192,6 +193,8 @@ func peekWith(e *world.Endpoint, cache bool) peekT {
 		if cache {
 			p.cache = len(in.HandshakeCache.VerifItems())
 		}
+		cs := dtlsstate.CommonState(in.State)
+		p.windows, p.remoteEpoch = len(cs.ReplayDetector), int(cs.RemoteEpoch())
 	})
 	return p
 }
@@ -779,6 +782,11 @@ func (r *runner) bounds(pk peekT, in *input) {
 	caseID := r.sp.id()
 	if pk.queued > limitQueued {
 		r.res.add("memory-bound-exceeded:queued-records", fmt.Sprintf("case %s: %d undecryptable records queued (limit %d) after %s", caseID, pk.queued, limitQueued, descOf(in)))
+	}
+	// one anti-replay window per epoch the endpoint can read, plus the queueable future epochs: an
+	// unauthenticated record header must not make the endpoint allocate state for epochs nobody negotiated
+	if lim := pk.remoteEpoch + 8; pk.windows > lim {
+		r.res.add("memory-bound-exceeded:replay-windows", fmt.Sprintf("case %s: %d anti-replay windows allocated while the highest readable epoch is %d (bound used %d) after %s", caseID, pk.windows, pk.remoteEpoch, lim, descOf(in)))
 	}
 	if pk.fragSize > limitFragBytes || pk.fragCount > limitFragCount {
 		r.res.add("memory-bound-exceeded:fragment-buffer", fmt.Sprintf("case %s: fragment buffer holds %d bytes / %d fragments (limits %d / %d) after %s", caseID, pk.fragSize, pk.fragCount, limitFragBytes, limitFragCount, descOf(in)))
